@@ -37,6 +37,9 @@ func genMember(name string, p string, strVal *JV) memberSpec {
 	case mString, mRenamed:
 		return memberSpec{st, strVal}
 	case mNumber:
+		if vx.Choose(p+name+".big", 2) == 1 {
+			return memberSpec{st, jNumS("1e400")} // outside float64: must still be accepted and carried as a literal
+		}
 		return memberSpec{st, symNum(p + name + ".n")}
 	case mObject:
 		return memberSpec{st, jObj().with("k", symNum(p+name+".o"))}
